@@ -26,7 +26,8 @@ from ..vloop import virtual_env
 PID = 'C09'
 LEVEL = 'fault_enumeration'
 RULE = ('histories: 1-3 partitions, 0-6 pre-existing and 0-14 later messages at virtual instants around the 1 s polls, '
-        'max_batch_size {1,2,3,10}, reset {earliest, latest}, keys on/off, optional partition added mid-run, consumer '
+        'max_batch_size {1,2,3,10}, reset {earliest, latest}, keys on/off, optional partition added mid-run, 0-2 transient '
+        'failures of the committed-offset fetch at every (re)start, consumer '
         'sync/coroutine/Future with service times {0,.5,1.5,3}; quick: each history is run uninterrupted and with crashes '
         'at 4 sampled event indices; thorough: crash after EVERY recorded event of short histories; non-trivial = >=2 '
         'batches emitted and >=1 commit journalled; distinct by hash(history, crash point)')
@@ -53,7 +54,7 @@ def gen_history(rng, tier):
          'keys': rng.random() < 0.3, 'pre': [rng.randrange(0, 7) for _ in range(nparts)],
          'produce': [], 'add_partition_at': None, 'npartitions_arg': rng.random() < 0.5,
          'sink': {'kind': rng.choice(['sync', 'coro', 'coro', 'future']), 'svc': [rng.choice([0, 0.5, 1.5, 3.0]) for _ in range(3)]},
-         'map': rng.random() < 0.5}
+         'map': rng.random() < 0.5, 'committed_failures': rng.choice([0, 0, 0, 1, 2])}
     t = 0.0
     for _ in range(rng.randrange(0, 15 if tier == 'thorough' else 10)):
         t += rng.choice([0, 0, 0.25, 0.5, 1.0, 1.0, 2.5])
@@ -256,6 +257,7 @@ def check_history(h, crash_at, counters, sets):
     for k, crash in enumerate([crash_at, None] if crash_at is not None else [None]):
         size_at_start = [len(x) for x in broker.logs]
         committed_at_start = {p: broker.committed.get(('g', p), kafka_fake.OFFSET_INVALID) for p in range(len(broker.logs))}
+        broker.committed_failures = h.get('committed_failures', 0)     # per incarnation: also on the restart
         inc = run_incarnation(broker, h, crash, preload=(k == 1))
         inc['size_at_start'] = size_at_start
         inc['committed_at_start'] = committed_at_start
